@@ -1,6 +1,7 @@
 package c11
 
 import (
+	"bytes"
 	"fmt"
 	"reflect"
 	"testing"
@@ -79,7 +80,11 @@ func checkConcat(t *testing.T, c ConcatCase) harness.Verdict {
 	}
 	v.Class(fmt.Sprintf("n:%d", len(parts)))
 
-	all, allErr := x509.ParseCertificates(append([]byte(nil), whole...))
+	wbuf := append([]byte(nil), whole...)
+	all, allErr := x509.ParseCertificates(wbuf)
+	if !bytes.Equal(wbuf, whole) {
+		v.Failf("input-modified:ParseCertificates", "ParseCertificates modified its input buffer")
+	}
 	allClass := contract(&v, "ParseCertificates", all, allErr)
 	if !framed {
 		// an element that is not exactly one TLV shifts the boundaries of its neighbours: the
@@ -91,7 +96,11 @@ func checkConcat(t *testing.T, c ConcatCase) harness.Verdict {
 	var classes []string
 	anyFatal, anyNonFatal, outerLax := false, false, false
 	for i, b := range parts {
-		ci, err := x509.ParseCertificate(append([]byte(nil), b...))
+		sbuf := append([]byte(nil), b...)
+		ci, err := x509.ParseCertificate(sbuf)
+		if !bytes.Equal(sbuf, b) {
+			v.Failf("input-modified:ParseCertificate", "ParseCertificate modified its input buffer (element %d)", i)
+		}
 		cl := contract(&v, "ParseCertificate", ci, err)
 		classes = append(classes, cl)
 		single = append(single, ci)
